@@ -725,6 +725,25 @@ func (x *Exec) builtinCall(f *frame, b *ssa.Builtin, in ssa.Instruction, c *ssa.
 	case "print", "println":
 		return Val{}
 	case "clear":
+		// clear(slice) zeroes the elements, clear(map) empties the map: only the components
+		// that model that element type / map type change (their new contents are not tracked)
+		switch u := c.Args[0].Type().Underlying().(type) {
+		case *types.Slice:
+			if !isStruct(u.Elem()) {
+				cn, srt := x.elemComp(u.Elem())
+				x.comp(cn, srt)
+				st.heap[cn] = x.havocConst(cn+"@clear", srt)
+				x.abstract("clear(slice): element contents not tracked afterwards")
+				return Val{}
+			}
+		case *types.Map:
+			has, val, ln, hs, vs := x.mapComps(u)
+			st.heap[has] = x.havocConst(has+"@clear", hs)
+			st.heap[val] = x.havocConst(val+"@clear", vs)
+			st.heap[ln] = x.havocConst(ln+"@clear", "(Array Int Int)")
+			x.abstract("clear(map): contents not tracked afterwards")
+			return Val{}
+		}
 		x.abstract("clear builtin")
 		x.havocHeapAll(st)
 		return Val{}
